@@ -52,4 +52,229 @@ theorem InvU.cur_unique {σ : State} (h : InvU σ) {ch cmd c : Nat} (hc : σ.cur
 theorem InvU.deliver_eq {σ : State} (h : InvU σ) {ch cmd c : Nat} (hc : σ.cur = some (ch, cmd))
     (hpc : σ.pc c = .filled ch) : c = cmd := h.cur_unique hc (h.fil c ch hpc)
 
+
+theorem find_spec {hold : List (Nat × Nat)} {c c' ch : Nat}
+    (hf : hold.find? (fun p => p.1 == c) = some (c', ch)) : c' = c ∧ (c, ch) ∈ hold := by
+  have h1 := List.find?_some hf
+  have h2 := List.mem_of_find?_eq_some hf
+  simp at h1; subst h1; exact ⟨rfl, h2⟩
+
+theorem InvU.step {σ : State} (h : InvU σ) (l : Label) (he : enabled l σ = true) : InvU (apply l σ) := by
+  cases l with
+  | recv =>
+    simp only [Flow.apply]
+    split
+    · rename_i ch rest hf
+      refine ⟨?_, h.fil, h.tok, ?_, ?_, ?_⟩
+      · intro x; have := h.tc x
+        simp only [tcount, hf, List.count_cons, List.map_cons] at this ⊢
+        omega
+      · intro c ch' hm
+        simp only [List.mem_cons] at hm
+        rcases hm with hm | hm
+        · injection hm with a b; subst a
+          exact ⟨h.fresh _ (Nat.le_refl _), by simp⟩
+        · have := h.hid c ch' hm; exact ⟨this.1, by simp only; omega⟩
+      · simp only [List.map_cons, List.nodup_cons]
+        refine ⟨?_, h.hnd⟩
+        intro hm
+        obtain ⟨p, hp, e⟩ := List.mem_map.1 hm
+        have := (h.hid p.1 p.2 hp).2
+        have e' : p.1 = σ.ncalls := e
+        omega
+      · intro c hc; exact h.fresh c (by simp only at hc; omega)
+    · exact h
+  | send c =>
+    simp only [Flow.apply]
+    split
+    · rename_i c' ch hf
+      obtain ⟨e, hmem⟩ := find_spec hf
+      subst e
+      have hperm : σ.hold.Perm ((c', ch) :: σ.hold.erase (c', ch)) := List.perm_cons_erase hmem
+      obtain ⟨hidle, hlt⟩ := h.hid c' ch hmem
+      have hnotin : ∀ ch2, (c', ch2) ∉ σ.hold.erase (c', ch) := by
+        intro ch2 hm
+        have hn := (hperm.map (·.1)).nodup_iff.1 h.hnd
+        simp only [List.map_cons, List.nodup_cons] at hn
+        exact hn.1 (List.mem_map_of_mem (f := (·.1)) hm)
+      refine ⟨?_, ?_, ?_, ?_, ?_, ?_⟩
+      · intro x; have := h.tc x
+        have hc := (hperm.map (·.2)).count_eq x
+        simp only [tcount, List.map_cons, List.count_cons, List.map_append, List.count_append, List.count_nil, List.map_nil] at this hc ⊢
+        omega
+      · intro c ch2; simp only [upd_apply]; split
+        · rename_i e; subst e; intro hh; injection hh with hh; subst hh
+          left; simp
+        · intro hh
+          rcases h.fil c ch2 hh with t | t | t
+          · left; simp [t]
+          · exact Or.inr (Or.inl t)
+          · exact Or.inr (Or.inr t)
+      · intro ch2 c hfl
+        simp only [upd_apply]
+        rcases hfl with t | t | t
+        · simp only [List.mem_append, List.mem_singleton] at t
+          rcases t with t | t
+          · have := h.tok ch2 c (Or.inl t)
+            split
+            · rename_i e; subst e; rw [hidle] at this; cases this
+            · exact this
+          · injection t with a b; subst a; subst b; simp
+        · have := h.tok ch2 c (Or.inr (Or.inl t))
+          split
+          · rename_i e; subst e; rw [hidle] at this; cases this
+          · exact this
+        · have := h.tok ch2 c (Or.inr (Or.inr t))
+          split
+          · rename_i e; subst e; rw [hidle] at this; cases this
+          · exact this
+      · intro c ch2 hm
+        have hm' := List.mem_of_mem_erase hm
+        have := h.hid c ch2 hm'
+        refine ⟨?_, this.2⟩
+        simp only [upd_apply]; split
+        · rename_i e; subst e; exact absurd hm (hnotin ch2)
+        · exact this.1
+      · exact List.Nodup.sublist ((List.erase_sublist).map _) h.hnd
+      · intro c hc; simp only [upd_apply]; split
+        · rename_i e; subst e; simp only at hc; omega
+        · exact h.fresh c hc
+    · exact h
+  | wTake =>
+    simp only [Flow.apply]
+    split
+    · rename_i t rest hw
+      refine ⟨?_, ?_, ?_, h.hid, h.hnd, h.fresh⟩
+      · intro x; have := h.tc x
+        simp only [tcount, hw, List.map_cons, List.count_cons, List.map_append, List.count_append, List.count_nil, List.map_nil] at this ⊢
+        omega
+      · intro c ch hh
+        rcases h.fil c ch hh with a | a | a
+        · rw [hw] at a; simp only [List.mem_cons] at a
+          rcases a with a | a
+          · right; left; simp [a]
+          · exact Or.inl a
+        · right; left; simp [a]
+        · exact Or.inr (Or.inr a)
+      · intro ch c hfl
+        apply h.tok ch c
+        rcases hfl with a | a | a
+        · left; rw [hw]; exact List.mem_cons_of_mem _ a
+        · simp only [List.mem_append, List.mem_singleton] at a
+          rcases a with a | a
+          · exact Or.inr (Or.inl a)
+          · left; rw [hw, a]; exact List.mem_cons_self
+        · exact Or.inr (Or.inr a)
+    · exact h
+  | rBegin =>
+    simp only [Flow.apply]
+    have hc : σ.cur = none := by
+      simp only [enabled, Bool.and_eq_true] at he
+      have := he.1; cases hcur : σ.cur <;> simp_all
+    split
+    · rename_i t rest hr
+      obtain ⟨tch, tcmd⟩ := t
+      refine ⟨?_, ?_, ?_, h.hid, h.hnd, h.fresh⟩
+      · intro x; have := h.tc x
+        simp only [tcount, hr, hc, List.map_cons, List.count_cons] at this ⊢
+        simp only [beq_iff_eq] at this ⊢
+        omega
+      · intro c ch hh
+        rcases h.fil c ch hh with a | a | a
+        · exact Or.inl a
+        · rw [hr] at a; simp only [List.mem_cons] at a
+          rcases a with a | a
+          · right; right; simp [a]
+          · exact Or.inr (Or.inl a)
+        · rw [hc] at a; cases a.1
+      · intro ch c hfl
+        apply h.tok ch c
+        rcases hfl with a | a | a
+        · exact Or.inl a
+        · right; left; rw [hr]; exact List.mem_cons_of_mem _ a
+        · right; left; rw [hr]
+          simp only at a
+          injection a.1 with a; rw [a]; exact List.mem_cons_self
+    · exact h
+  | rDeliver c =>
+    simp only [Flow.apply]
+    split
+    · rename_i ch cmd hcur
+      simp only [enabled, hcur, Bool.and_eq_true] at he
+      have hpc : σ.pc c = .filled ch := by simpa using he.2
+      have hcc : c = cmd := h.deliver_eq hcur hpc
+      subst hcc
+      refine ⟨?_, ?_, ?_, ?_, h.hnd, ?_⟩
+      · intro x; exact h.tc x
+      · intro c' ch'; simp only [upd_apply]; split
+        · intro hh; cases hh
+        · rename_i e
+          intro hh
+          rcases h.fil c' ch' hh with a | a | a
+          · exact Or.inl a
+          · exact Or.inr (Or.inl a)
+          · rw [hcur] at a; injection a.1 with a; injection a with _ a; exact absurd a.symm e
+      · intro ch' c' hfl
+        have hold : inFlight σ ch' c' := by
+          rcases hfl with a | a | a
+          · exact Or.inl a
+          · exact Or.inr (Or.inl a)
+          · simp only at a; cases a.2
+        have hp := h.tok ch' c' hold
+        simp only [upd_apply]; split
+        · rename_i e; subst e
+          -- c' = c is the command in b.c: it cannot also travel in w or r
+          rw [hpc] at hp; injection hp with hp; subst hp
+          rcases hfl with a | a | a
+          · have t := h.tc ch; simp only [tcount, hcur, if_true] at t
+            have a' : (ch, c') ∈ σ.w := a
+            have := mem_w_count a'; omega
+          · have t := h.tc ch; simp only [tcount, hcur, if_true] at t
+            have a' : (ch, c') ∈ σ.r := a
+            have := mem_r_count a'; omega
+          · simp only at a; cases a.2
+        · exact hp
+      · intro c' ch' hm
+        have := h.hid c' ch' hm
+        refine ⟨?_, this.2⟩
+        simp only [upd_apply]; split
+        · rename_i e; subst e; rw [hpc] at this; cases this.1
+        · exact this.1
+      · intro c' hc'
+        have := h.fresh c' hc'
+        simp only [upd_apply]; split
+        · rename_i e; subst e; rw [hpc] at this; cases this
+        · exact this
+    · exact h
+  | rFinish =>
+    simp only [Flow.apply]
+    split
+    · rename_i ch cmd hcur
+      have hd : σ.delivered = true := by
+        simp only [enabled, Bool.and_eq_true] at he
+        exact he.1.2
+      refine ⟨?_, ?_, ?_, h.hid, h.hnd, h.fresh⟩
+      · intro x; have := h.tc x
+        simp only [tcount, hcur, List.count_append, List.count_cons, List.count_nil] at this ⊢
+        simp only [beq_iff_eq] at this ⊢
+        omega
+      · intro c ch' hh
+        rcases h.fil c ch' hh with a | a | a
+        · exact Or.inl a
+        · exact Or.inr (Or.inl a)
+        · rw [hd] at a; cases a.2
+      · intro ch' c hfl
+        apply h.tok ch' c
+        rcases hfl with a | a | a
+        · exact Or.inl a
+        · exact Or.inr (Or.inl a)
+        · simp only at a; cases a.1
+    · exact h
+
+theorem InvU.of_reachable {size : Nat} {σ : State} (h : Reachable size σ) : InvU σ := by
+  induction h with
+  | init => exact InvU.init size
+  | step l _ he ih => exact ih.step l he
+
+
 end Rv.Flow
